@@ -13,8 +13,12 @@ impl GenerationPass for EliminateDeadCodeDirectionsPass {
 
         let nodes = cfg.nodes();
         let mut changed = true;
+        #[cfg(feature = "rva_verif")]
+        crate::verif::pass_begin("dead_code", nodes.len());
         while changed {
             changed = false;
+            #[cfg(feature = "rva_verif")]
+            crate::verif::sweep();
             let old = nodes.clone();
             for node in nodes {
                 if node.is_return() || node.is_any_entry() || node.might_terminate() {
